@@ -181,7 +181,7 @@ func C16() *check.Property {
 		Patterns: CorePatterns,
 		Scope:    []string{ro},
 		Rules: []check.Rule{ruleRelease(), ruleTeardownAllRun(), ruleCtxWatch(), ruleCtxDoneTerminates(), ruleQueueFIFO(), ruleCtxPairing(),
-			ruleTerminalPropagation(), ruleDeadEmission(), ruleNoEmitUnderTeardownLock(), ruleStateLevel(), ruleWatchdogRearm(), ruleTimerDequeueCoupled(), ruleConsumeFlag(), ruleBuildTimeState(), ruleCtxProvenance(), ruleTimeShiftViaTimer(), ruleNoHotInCold(), ruleTimerResetDrained(), ruleNoPostDeliveryMutation(), ruleTickerArgPositive()},
+			ruleTerminalPropagation(), ruleDeadEmission(), ruleNoEmitUnderTeardownLock(), ruleStateLevel(), ruleWatchdogRearm(), ruleTimerDequeueCoupled(), ruleConsumeFlag(), ruleBuildTimeState(), ruleCtxProvenance(), ruleTimeShiftViaTimer(), ruleNoHotInCold(), ruleTimerResetDrained(), ruleNoPostDeliveryMutation(), ruleTickerArgPositive(), ruleClockOrigin(), ruleSwapDeliverCoupled()},
 		Explanation: "Narrow structural claim. Every clause of C16 that compares wall-clock instants or counts events per window (never early, at most one per window/tick, Timeout only after a full quiet period) is NOT decided: no sound static argument bounds those. " +
 			"Decided are the clauses that are visible in the code's shape: (fall silent) every timer, ticker and looping goroutine of every operator is stopped / signalled by its teardown, on every path of the teardown and even when an earlier release panics (RELEASE, TEARDOWN-ALL-RUN); " +
 			"the context-aware sources watch the subscriber context in every blocking select and the cancellation case ends the output (CTX-WATCH, CTX-DONE-TERMINATES); (never reorder) the queues of Delay and of the combining/buffering operators are filled at the tail and read at the head " +
@@ -191,7 +191,7 @@ func C16() *check.Property {
 		Assumptions: []string{"time.Timer/Ticker/AfterFunc semantics", "C03 (teardown runs once) and C01 (a closed subscriber drops late notifications: a timer that fires after the terminal is harmless)"},
 		Floors:      map[string]int{"acquisitions": 150, "ctx_watch_selects": 4, "ctx_done_cases": 5, "queue_head_reads": 15, "complete_slots_checked": 120, "timer_resets": 1},
 		Controls: map[string]string{"zz_verif_controls_c03.go": roControl(controlsC03 + controlsC03b), "zz_verif_controls_c05.go": roControl(controlsC05),
-			"zz_verif_controls_c04.go": roControl(controlsC04), "zz_verif_controls_c06.go": roControl(controlsC06), "zz_verif_controls_c09.go": roControl(controlsC09 + controlsC09b), "zz_verif_controls_c12.go": roControl(controlsC12 + controlsNoHotInCold), "zz_verif_controls_c16.go": roControl(controlsTimerReset + controlsTickerArg)},
+			"zz_verif_controls_c04.go": roControl(controlsC04), "zz_verif_controls_c06.go": roControl(controlsC06), "zz_verif_controls_c09.go": roControl(controlsC09 + controlsC09b), "zz_verif_controls_c12.go": roControl(controlsC12 + controlsNoHotInCold), "zz_verif_controls_c16.go": roControl(controlsTimerReset + controlsTickerArg + controlsClockOrigin + controlsSwapDeliver)},
 	}
 }
 
